@@ -60,7 +60,13 @@ var defaultZ = Reg{AuthMethod: mBasic, AppType: "web", HasKeys: true}
 // zReg: the registration of the other client. A request under test that carries the other client's id as a conflicting
 // client_id form value (BodyID "other") is judged as a request of X only because the other client can never be served: then
 // it is always the inert default (confidential, no grants), whatever the history says.
+//
+// Case.Z (newer cases) is a registration for the other client that the oracle does take into account for a conflicting
+// client_id (judge: ZServable); it has precedence.
 func (c Case) zReg() Reg {
+	if c.Z != nil {
+		return *c.Z
+	}
 	if c.Hist != nil && c.Hist.Z != nil && c.BodyID != "other" {
 		return *c.Hist.Z
 	}
@@ -241,7 +247,7 @@ func genHist(t *rapid.T, c *Case) {
 		return
 	}
 	h := &History{}
-	if rapid.IntRange(0, 3).Draw(t, "hist.z.on") > 0 && c.BodyID != "other" {
+	if rapid.IntRange(0, 3).Draw(t, "hist.z.on") > 0 && c.BodyID != "other" && c.Z == nil {
 		z := genReg(t, "hist.z.", &c.Reg)
 		h.Z = &z
 	}
@@ -285,8 +291,8 @@ func genHist(t *rapid.T, c *Case) {
 	}
 	if len(h.Prelude) > 0 && rapid.Bool().Draw(t, "hist.pres.confused") {
 		c.Pres = rapid.SampledFrom(confusedPres).Draw(t, "hist.pres")
-		if !strings.HasPrefix(c.Pres, "basic-") && !strings.HasPrefix(c.Pres, "assert-") {
-			c.BodyID = ""
+		if !riderable(c.Pres) {
+			c.BodyID, c.RiderIn = "", ""
 		}
 	}
 }
